@@ -137,5 +137,41 @@ item(F + " :: impl Fr :: fn montgomery_reduce", ret="r", stmts=25, attrs=["#[ver
      ensures=["reduced(r)", "congruent(val4(r.0) * r256(), val8(r0, r1, r2, r3, r4, r5, r6, r7), q())"],
      hints=h)
 
+# ---- mul_ref: 16 macs (4 rows) + tail call
+h = {}
+h["0"] = ["proof { lemma_q_bounds(); lemma_val4_bound(self.0); lemma_val4_bound(rhs.0); }"]
+# output variable names per statement, from the source: row i, column j
+rows_out = [["r0", "r1", "r2", "r3", "r4"], ["r1", "r2", "r3", "r4", "r5"], ["r2", "r3", "r4", "r5", "r6"], ["r3", "r4", "r5", "r6", "r7"]]
+for i in range(4):
+    for j in range(4):
+        st = 4 * i + j
+        outv = rows_out[i][j]
+        g_ = "let ghost w%d%d = %s as int;" % (i, j, outv)
+        if j < 3:
+            g_ += " let ghost cy%d%d = carry as int;" % (i, j)
+        else:
+            g_ += " let ghost w%d4 = %s as int;" % (i, rows_out[i][4])
+        h.setdefault(str(st + 1), []).append(g_)
+    xin = ["0", "0", "0", "0"] if i == 0 else ["w%d%d" % (i - 1, jj) for jj in range(1, 5)]
+    h[str(4 * i + 4)].append("proof { lemma_mul_row(%s, self.0[%d], rhs.0[0], rhs.0[1], rhs.0[2], rhs.0[3], cy%d0, cy%d1, cy%d2, w%d0, w%d1, w%d2, w%d3, w%d4); }"
+                             % (", ".join(xin), i, i, i, i, i, i, i, i, i))
+h["16"] += [
+    "proof {",
+    "    let bb = ival4(rhs.0[0] as int, rhs.0[1] as int, rhs.0[2] as int, rhs.0[3] as int);",
+    "    lemma_mul_compose(self.0[0] as int, self.0[1] as int, self.0[2] as int, self.0[3] as int, bb,",
+    "        w00, w01, w02, w03, w04, w10, w11, w12, w13, w14, w20, w21, w22, w23, w24, w30, w31, w32, w33, w34);",
+    "    assert(val8(r0, r1, r2, r3, r4, r5, r6, r7) == val4(self.0) * val4(rhs.0));",
+    "    lemma_prod_bound(val4(self.0), val4(rhs.0));",
+    "}"]
+MULPRE = ["reduced(*self) || reduced(*rhs)"]
+MULPOST = ["reduced(r)", "congruent(val4(r.0) * r256(), val4(self.0) * val4(rhs.0), q())"]
+item(F + " :: impl Fr :: fn mul_ref", ret="r", stmts=17, requires=MULPRE, ensures=MULPOST, hints=h)
+item(F + " :: impl Fr :: fn mul", ret="r", stmts=1, requires=["reduced(self) || reduced(*rhs)"], ensures=MULPOST)
+item(F + " :: impl Fr :: fn from_raw", ret="r", stmts=1,
+     ensures=["reduced(r)", "congruent(val4(r.0) * r256(), val4(val) * val4(R2.0), q())"],
+     hints={"0": ["proof { lemma_consts(); }"]})
+item(F + " :: impl Fr :: fn one", ret="r", stmts=1, ensures=["reduced(r)", "val4(r.0) == r256() % q()"],
+     hints={"0": ["proof { lemma_consts(); }"]})
+
 open(__file__.rsplit("/", 1)[0] + "/contracts.txt", "w").write("\n".join(out) + "\n")
 print("contracts.txt written:", sum(1 for l in out if l.startswith("###")), "items")
